@@ -83,7 +83,7 @@ Print Assumptions C01_commit_store.
 
 (* non-vacuity: an accepted two-header answer (start #5, last #7, last-N 2, no samples) *)
 Example C01_example_commit :
-  let h n id parent := mkVH id id n (n * 10) 10 1 (mkEpoch 0 n 100) parent true true in
+  let h n id parent := mkVH id id n (n * 10) 10 1 (mkEpoch 0 n 100) parent (n - 1) true true in
   let rq := mkPR (h 7 107 106) 5 0 [] false false in
   exists e, execute 2 2 (PRequested None rq) (mkStore 10 (0, 100) [] []) (h 7 107 106) false
                     [h 5 105 104; h 6 106 105] 0 true true = Ok e
